@@ -24,7 +24,17 @@ def contains_import(tree, module, name):
 def used_externals_in(source) -> Set[str]:
     tree = ast.parse(source)
 
-    if not contains_import(tree, "inline_snapshot", "external"):
+    # external can be imported everywhere in the module and with a different name
+    # `from inline_snapshot import external as ext`
+    names = {
+        alias.asname or alias.name
+        for node in ast.walk(tree)
+        if isinstance(node, ast.ImportFrom) and node.module == "inline_snapshot"
+        for alias in node.names
+        if alias.name == "external"
+    }
+
+    if not names:
         return set()
 
     usages = []
@@ -33,7 +43,7 @@ def used_externals_in(source) -> Set[str]:
         if (
             isinstance(node, ast.Call)
             and isinstance(node.func, ast.Name)
-            and node.func.id == "external"
+            and node.func.id in names
         ):
             usages.append(node)
 
